@@ -143,6 +143,24 @@ pub struct Stats {
     pub collected: AtomicU64,
 }
 
+/// The one mechanism by which the WHATWG algorithm itself leaves the skeleton (known finding, DESIGN.md
+/// §8.3b): whitespace in the "after after frameset" mode is processed with the in-body rules, which
+/// reconstruct the active formatting elements under `html`. It is recognised by its result: a frameset
+/// document whose only surplus children of `html` are formatting elements.
+fn skeleton_kind(msg: &str) -> String {
+    const FMT: &[&str] = &["a", "b", "big", "code", "em", "font", "i", "nobr", "s", "small", "strike", "strong", "tt", "u"];
+    if let Some(list) = msg.strip_prefix("element children of html are ") {
+        let names: Vec<String> = list.trim_matches(|c| c == '[' || c == ']').split(", ").map(|s| s.trim_matches('"').to_string()).collect();
+        if names.len() > 2 && names[0] == "head" && names[1] == "frameset" {
+            let rest: Vec<&String> = names[2..].iter().filter(|n| *n != "noframes").collect();
+            if !rest.is_empty() && rest.iter().all(|n| FMT.contains(&n.as_str())) {
+                return "skeleton-formatting-reconstructed-after-after-frameset".into();
+            }
+        }
+    }
+    "skeleton".into()
+}
+
 /// All oracle clauses of one execution. Returns (kind, message) of the first failure.
 pub fn judge(prop: Prop, cfg: &TreeCfg, out: &Result<TreeOut, String>) -> Option<(String, String)> {
     let o = match out {
@@ -173,7 +191,7 @@ pub fn judge(prop: Prop, cfg: &TreeCfg, out: &Result<TreeOut, String>) -> Option
         Prop::C06 => {
             if cfg.fragment.is_none() {
                 if let Some(m) = skeleton_check(&sink.dom.borrow()) {
-                    return Some(("skeleton".into(), m));
+                    return Some((skeleton_kind(&m), m));
                 }
                 // the same predicate on the tree the reference sink (RcDom) materialised
                 if let Some(rc) = &sink.rc {
@@ -576,6 +594,13 @@ pub fn main(ctx: &Ctx, prop: Prop) -> ! {
         }
     }
     js.retain(|j| j.depth > 0);
+    if prop == Prop::C06 {
+        // frameset documents with leftover active formatting elements, continued in the frameset modes
+        let sig: Vec<&'static str> = vec![" ", "x", "<!--c-->", "</html>", "</frameset>", "<noframes>", "</noframes>", "<i>", "<frame>", "\n", "<html>", "<!DOCTYPE html>"];
+        for w in [vec!["<b>", "<frameset>", "</frameset>"], vec!["<b>", "<i>", "<frameset>", "</frameset>", "</html>"], vec!["<a>", "<frameset>"], vec!["<frameset>", "</frameset>", "</html>"]] {
+            js.push(Job { name: format!("J10/{}", w.concat()), cfg: TreeCfg { with_rcdom: true, ..Default::default() }, prefix: w, sigma: sig.clone(), depth: ctx.tier.pick(3, 4) });
+        }
+    }
     if prop == Prop::C18 {
         js.push(pointer_job(ctx.tier));
         js.extend(pointer_prep_jobs(ctx.tier));
@@ -599,7 +624,8 @@ pub fn main(ctx: &Ctx, prop: Prop) -> ! {
         if samples.len() < 4 && !out.deepest.is_empty() {
             samples.push(json!(format!("{} :: {}{}", j.name, j.prefix.concat(), render(&j.sigma, &out.deepest))));
         }
-        jobrep.push(json!({"job": j.name, "depth": j.depth, "alphabet": j.sigma.len(), "states": out.states, "transitions": out.transitions, "complete_to_depth": complete, "capped_by": out.capped_by}));
+        let dead: Vec<&str> = out.symbol_uses.iter().enumerate().filter(|(_, n)| **n == 0).map(|(i, _)| j.sigma[i]).collect();
+        jobrep.push(json!({"job": j.name, "depth": j.depth, "alphabet": j.sigma.len(), "states": out.states, "transitions": out.transitions, "complete_to_depth": complete, "capped_by": out.capped_by, "never_enabled_symbols": dead}));
     }
     // C18: one-deviation schedules: a "script" detaches one attached element at one suspension point
     let mut detach_runs = 0u64;
